@@ -370,7 +370,19 @@ func (fr *Frame) loopHeader(b *ssa.BasicBlock, li *loopInfo, phiEntry map[*ssa.P
 				cs := srt[len("(Array Int ") : len(srt)-1]
 				nv := old
 				for _, c := range cells {
-					nv = sStore(nv, c, x.em.Fresh(n+".cell", cs))
+					row := x.em.Fresh(n+".cell", cs)
+					nv = sStore(nv, c, row)
+					// (non-escaping locals are not pointed to from maps or slices: see below)
+					for _, la := range fr.locals {
+						if fr.escaped[la.alloc] {
+							continue
+						}
+						tk := typeKey(types.NewPointer(la.t))
+						if (strings.HasPrefix(n, "HM:") && strings.HasSuffix(n, ":"+tk+":val")) || n == "HA:"+tk {
+							ks := cs[len("(Array ") : len(cs)-len(" Int)")]
+							x.em.Assert("(forall ((k!na " + ks + ")) (! (not (= (select " + row + " k!na) " + la.ref + ")) :pattern ((select " + row + " k!na))))")
+						}
+					}
 				}
 				fr.cur.m[n] = x.em.Def(n+".loop", srt, nv)
 				continue
@@ -379,6 +391,21 @@ func (fr *Frame) loopHeader(b *ssa.BasicBlock, li *loopInfo, phiEntry map[*ssa.P
 			fr.cur.m[n] = nv
 			if n == allocName {
 				x.em.Assert(sLe(old, nv))
+			}
+			// a local variable whose address never escapes is not what a pointer stored in
+			// a map or slice points to, whatever the loop body did
+			for _, la := range fr.locals {
+				if fr.escaped[la.alloc] {
+					continue
+				}
+				tk := typeKey(types.NewPointer(la.t))
+				switch {
+				case strings.HasPrefix(n, "HM:") && strings.HasSuffix(n, ":"+tk+":val"):
+					ks := srt[len("(Array Int (Array ") : len(srt)-len(" Int))")]
+					x.em.Assert("(forall ((m!na Int) (k!na " + ks + ")) (! (not (= (select (select " + nv + " m!na) k!na) " + la.ref + ")) :pattern ((select (select " + nv + " m!na) k!na))))")
+				case n == "HA:"+tk:
+					x.em.Assert("(forall ((a!na Int) (i!na Int)) (! (not (= (select (select " + nv + " a!na) i!na) " + la.ref + ")) :pattern ((select (select " + nv + " a!na) i!na))))")
+				}
 			}
 		}
 	}
@@ -455,12 +482,25 @@ func (fr *Frame) stableCells(h *ssa.BasicBlock, li *loopInfo, n string) []string
 		if r == nil {
 			return nil
 		}
-		if in, ok := r.(ssa.Instruction); ok {
-			if in.Block() == nil || li.body[in.Block()] {
+		var v *SVal
+		ok := false
+		if in, isIn := r.(ssa.Instruction); isIn {
+			if in.Block() == nil {
 				return nil
 			}
+			if li.body[in.Block()] {
+				// a load inside the loop from a field that the loop does not modify, through a
+				// pointer defined outside the loop, yields the same value in every iteration
+				v = fr.invariantLoad(h, li, r)
+				if v == nil {
+					return nil
+				}
+				ok = true
+			}
 		}
-		v, ok := fr.vals[r]
+		if !ok {
+			v, ok = fr.vals[r]
+		}
 		if !ok {
 			switch r.(type) {
 			case *ssa.Global, *ssa.Const:
@@ -1214,6 +1254,7 @@ func (fr *Frame) lookup(i *ssa.Lookup) {
 	mh := fr.mapInfo(m.T)
 	res := fr.iteVal(inc, val, zeroVal(mh.vt))
 	fr.assumeRanges(res)
+	fr.mapValuesAllocated(fr.cur, m)
 	if i.CommaOk {
 		fr.vals[i] = &SVal{T: i.Type(), F: []*SVal{res, leaf(types.Typ[types.Bool], inc)}}
 	} else {
@@ -1261,6 +1302,58 @@ func (fr *Frame) next(i *ssa.Next) {
 	val, in := fr.mapLookupIn(fr.cur, src, fr.keyTerm(k))
 	fr.assume(sImp(ok, sAnd(in, sNot(sEq(src.Term, "0")))))
 	fr.assumeRanges(val)
+	fr.mapValuesAllocated(fr.cur, src)
 	_ = mh
 	fr.vals[i] = &SVal{T: i.Type(), F: []*SVal{leaf(types.Typ[types.Bool], ok), k, val}}
+}
+
+// invariantLoad: r is a load inside loop li through a chain of field addresses rooted at a
+// value defined outside the loop; if the loop modifies none of the heaps read, the loaded
+// value is the one read at loop entry.
+func (fr *Frame) invariantLoad(h *ssa.BasicBlock, li *loopInfo, r ssa.Value) (res *SVal) {
+	u, ok := r.(*ssa.UnOp)
+	if !ok || u.Op != token.MUL {
+		return nil
+	}
+	var fields []*ssa.FieldAddr
+	a := u.X
+	for {
+		fa, ok := a.(*ssa.FieldAddr)
+		if !ok {
+			break
+		}
+		fields = append([]*ssa.FieldAddr{fa}, fields...)
+		a = fa.X
+	}
+	if len(fields) == 0 {
+		return nil
+	}
+	if in, ok := a.(ssa.Instruction); ok && (in.Block() == nil || li.body[in.Block()]) {
+		return nil
+	}
+	base, ok := fr.vals[a]
+	if !ok {
+		return nil
+	}
+	defer func() {
+		if recover() != nil {
+			res = nil
+		}
+	}()
+	loc := fr.ptrLoc(base, false)
+	for _, fa := range fields {
+		st, ok := loc.T.Underlying().(*types.Struct)
+		if !ok {
+			return nil
+		}
+		f := st.Field(fa.Field)
+		loc = loc.extend(PStep{Field: f.Name()}, f.Type())
+	}
+	for _, lf := range leavesOf(loc.T) {
+		name, _ := loc.heapFor(lf.Path)
+		if fr.x.loopMods[h][name] {
+			return nil
+		}
+	}
+	return fr.readLocIn(fr.cur, loc)
 }
